@@ -39,6 +39,7 @@ type ServerCfg struct {
 	ExtraFormats   int  // additional formats offered by the first media (default 0)
 	Multicast      bool // offer multicast delivery (224.1.0.0/16, a free port pair)
 	BackChannel    int  // n > 0: a back-channel audio media is inserted at index n-1 of the served stream
+	Wildcard       bool // listen on the wildcard address (":port", dual-stack sockets: IPv4 peers appear as IPv4-mapped addresses); clients still use IP
 	AuthUser       string
 	AuthPass       string
 	IP             string // listen address, default 127.0.0.1
@@ -363,9 +364,13 @@ func Start(cfg ServerCfg) (*Bed, error) {
 	var lastErr error
 	for attempt := 0; attempt < 20; attempt++ {
 		b.Port = FreeTCPPort(b.IP)
+		listenIP := b.IP
+		if cfg.Wildcard {
+			listenIP = ""
+		}
 		s := &gortsplib.Server{
 			Handler:        h,
-			RTSPAddress:    net.JoinHostPort(b.IP, strconv.Itoa(b.Port)),
+			RTSPAddress:    net.JoinHostPort(listenIP, strconv.Itoa(b.Port)),
 			ReadTimeout:    cfg.ReadTimeout,
 			IdleTimeout:    cfg.IdleTimeout,
 			WriteTimeout:   cfg.WriteTimeout,
@@ -375,8 +380,8 @@ func Start(cfg ServerCfg) (*Bed, error) {
 		}
 		if cfg.UDP {
 			b.UDPPort = FreeUDPPair(b.IP)
-			s.UDPRTPAddress = net.JoinHostPort(b.IP, strconv.Itoa(b.UDPPort))
-			s.UDPRTCPAddress = net.JoinHostPort(b.IP, strconv.Itoa(b.UDPPort+1))
+			s.UDPRTPAddress = net.JoinHostPort(listenIP, strconv.Itoa(b.UDPPort))
+			s.UDPRTCPAddress = net.JoinHostPort(listenIP, strconv.Itoa(b.UDPPort+1))
 		}
 		if cfg.Multicast {
 			b.McastPort = FreeUDPPair("0.0.0.0")
